@@ -78,6 +78,13 @@ def h_reset(E):
                 v.append(E.real('e%da' % n))          # in-place edit of a list-valued parameter
             else:
                 set_leaf(G, path, E.real('e%d' % n))     # in-place edit of a (nested) leaf
+        if E.choose(2, 'add_key'):
+            G['LOWESS']['delta'] = E.real('added')          # a key added in place (e.g. an extra LOWESS argument)
+            G['NEW_TOP_LEVEL'] = E.real('added2')
+            E.cover('key added in place')
+        if E.choose(2, 'del_key'):
+            del G['SLICING_PRMS']['height_scale_kwargs']['min_range']
+            E.cover('key removed in place')
         edited = freeze(G)
         sel = [t for t in TOP if E.choose(2, 'reset_' + t)]
         E.cover('partial reset', 0 < len(sel) < len(TOP))
@@ -135,10 +142,10 @@ def h_yaml(E):
 
 
 HARNESSES = [
-    H('H-routes', h_routes, quick=[(1, k) for k in range(10)] + [(2, 0), (2, 2), (2, 9)], thorough=[(n, k) for n in (1, 2) for k in range(10)] + [(3, 9)], float_model='R', scripted=True,
+    H('H-routes', h_routes, quick=[(1, k) for k in range(10)] + [(2, 0), (2, 2), (2, 3), (2, 9)], thorough=[(n, k) for n in (1, 2) for k in range(10)] + [(3, 9)], float_model='R', scripted=True,
       cover=['a poisoned global leaf is overridden per call', 'unknown key'],
       doc='2-run: per-call dictionary over a poisoned global vs edited global: same chunk parameters, tables, messages; unknown keys warn once and add nothing'),
-    H('H-reset', h_reset, quick=[()], thorough=[()], cover=['partial reset', 'full reset'], float_model='R',
+    H('H-reset', h_reset, quick=[()], thorough=[()], cover=['partial reset', 'full reset', 'key added in place', 'key removed in place'], float_model='R',
       doc='real reset_prms after nested in-place edits of every leaf, for every choice of names'),
     H('H-yaml', h_yaml, quick=[()], thorough=[()], cover=['ran'],
       doc='real set_prms on concrete YAML files (real ruamel): concrete enumeration, no symbolic content'),
